@@ -151,9 +151,23 @@ func runLRUCase(c *vrun.Ctx, p lruParams, shards int, limit int64, ents []lruEnt
 		for i, e := range ents {
 			order[e.touch] = i
 		}
+		// The reference's notion of "last used" is the harness's own record of when it touched each
+		// entry, not the LastAccess the implementation wrote down (which is what is being judged).
+		// Both read paths count as use: entries at even positions are touched with GetMetadata, the
+		// others with Get.
+		touched := map[string]time.Time{}
 		for _, i := range order {
-			if _, _, err := h.c.GetMetadata(h.keys[ents[i].key]); err != nil {
-				panic("touch failed: " + err.Error())
+			touched[ents[i].key] = vtime.Peek()
+			if i%2 == 0 {
+				if _, _, err := h.c.GetMetadata(h.keys[ents[i].key]); err != nil {
+					panic("touch failed: " + err.Error())
+				}
+			} else {
+				e, err := h.c.Get(h.keys[ents[i].key])
+				if err != nil {
+					panic("touch failed: " + err.Error())
+				}
+				e.Data.Close()
 			}
 			vtime.Advance(10 * time.Millisecond)
 		}
@@ -200,6 +214,9 @@ func runLRUCase(c *vrun.Ctx, p lruParams, shards int, limit int64, ents []lruEnt
 		last = map[string]time.Time{}
 		after, sizeAfter = read()
 		last = lastBefore
+		for k, t := range touched {
+			last[k] = t
+		}
 		h.cancel()
 		vsched.Quiesce()
 		if h.dir != "" {
